@@ -28,7 +28,8 @@ def inline_builtin(expr: Expression, rules: Mapping[str, Rule]) -> Expression:  
 
 def inline_silent_rules(expr: Expression, rules: Mapping[str, Rule]) -> Expression:
     """Inline silent rules."""
-    if isinstance(expr, Identifier):
+    # A tagged reference is not inlined: the tag would be lost.
+    if isinstance(expr, Identifier) and not expr.tag:
         rule = rules[expr.value]
         if rule.modifier & SILENT:
             return rule.expression
